@@ -239,6 +239,8 @@ class KexDH:  # pragma: nocover
     def __get_bytes(buf: bytes, ptr: int) -> Tuple[bytes, int, int]:
         num_bytes = struct.unpack('>I', buf[ptr:ptr + 4])[0]
         ptr += 4
+        if ptr + num_bytes > len(buf):  # The field says it is longer than the data that is actually there (a slice would silently return less, and the declared length would be taken for the key size).
+            raise ValueError('field of %u bytes at offset %u exceeds the %u bytes received' % (num_bytes, ptr, len(buf)))
         return buf[ptr:ptr + num_bytes], num_bytes, ptr + num_bytes
 
     # Converts a modulus length in bytes to its size in bits, after some
